@@ -511,7 +511,7 @@ def process(template_path, out=None, unit=None, depth=0):
                 out.emit(ci)
             i += 1
             continue
-        if d in ('fn', 'arm'):
+        if d in ('fn', 'arm', 'closure'):
             i = process_fn(tl, i, d, arg, out, unit)
             continue
         raise AnchorLoss('%s:%d unknown directive %s' % (template_path, i + 1, d))
@@ -548,9 +548,12 @@ def process_fn(tl, i, d, arg, out, unit):
 
     armsel = None
     wrapper_sig = None
+    closure_pat = None
     for k, a, ls in sections:
         if k == 'arm-pattern':
             armsel = a
+        if k == 'closure-pattern':
+            closure_pat = a
         if k == 'wrap':
             wrapper_sig = '\n'.join(ls)
     src, it = select(rel, sel)
@@ -578,6 +581,26 @@ def process_fn(tl, i, d, arg, out, unit):
             log.append('T9 `_` parameters named')
             sig2 = sig3
         sig2 = re.sub(r'^\s+', '', sig2)
+    elif d == 'closure':
+        # T12: the block body of a closure `<anchor>|params| { .. }` inside the selected function, wrapped as a
+        # function whose signature (captured variables become parameters) comes from the template
+        if closure_pat is None or wrapper_sig is None:
+            raise AnchorLoss('%s: closure needs //@ closure-pattern and //@ wrap' % sel)
+        fb = src[it.body_open:it.end]
+        ms = list(re.finditer(closure_pat, fb))
+        if len(ms) != 1:
+            raise AnchorLoss('%s: closure anchor `%s` matches %d times in %s' % (rel, closure_pat, len(ms), sel))
+        j = ms[0].end()
+        mc = re.match(r'\s*(move\s+)?\|[^|]*\|\s*\{', fb[j:])
+        if not mc:
+            raise AnchorLoss('%s: no `|..| {` after closure anchor `%s` in %s' % (rel, closure_pat, sel))
+        bo = j + mc.end() - 1
+        be = rs.match_close(fb, bo)
+        body = fb[bo:be + 1]
+        body_src_line = line_of(src, it.body_open + bo)
+        sig2 = wrapper_sig.strip() + ' '
+        qual = qual + '#closure:' + (next((a for k, a, ls in sections if k == 'name'), None) or 'c')
+        log.append('T12 closure after `%s` wrapped as a function' % closure_pat)
     else:
         # match arm: wrapper signature comes from the template (T7)
         if armsel is None or wrapper_sig is None:
@@ -622,6 +645,17 @@ def process_fn(tl, i, d, arg, out, unit):
     # ---- insertions into body (compute positions on the *current* body text)
     inserts = []  # (pos, text, tag)
     loops = rs.find_loops(body, 0, len(body))
+    # `@LV<n>` in any section text stands for the variable of loop n (`for <ident> in ..`), so that renaming a loop
+    # index in the source does not lose the invariant
+    def _lv(m):
+        li = int(m.group(1))
+        if li >= len(loops):
+            raise AnchorLoss('%s/%s: @LV%d: loop not found' % (unit, qual, li))
+        mv = re.match(r'for\s+(?:mut\s+)?([A-Za-z_]\w*)\s+in\b', body[loops[li][0]:])
+        if not mv:
+            raise AnchorLoss('%s/%s: @LV%d: loop %d is not `for <ident> in`' % (unit, qual, li, li))
+        return mv.group(1)
+    sections = [(k, a, [re.sub(r'@LV(\d+)', _lv, l) for l in ls]) for k, a, ls in sections]
     nloop_sections = 0
     for k, a, ls in sections:
         txt = '\n'.join(ls).rstrip()
@@ -677,7 +711,7 @@ def process_fn(tl, i, d, arg, out, unit):
                 break
             if not placed:
                 out.lost_hints.append({'fn': qual, 'anchor': a})
-        elif k in ('spec', 'arm-pattern', 'wrap', 'subst', 'name', 'desugar-ops', 'wrap-ok'):
+        elif k in ('spec', 'arm-pattern', 'closure-pattern', 'wrap', 'subst', 'name', 'desugar-ops', 'wrap-ok'):
             pass
         else:
             raise AnchorLoss('unknown section %s in %s' % (k, qual))
